@@ -9,5 +9,5 @@ CONSTANTS
   IBaseMags = {0, 1, 7}
   IRateMags = {0, 1, 999, 1000, 500000, 999999, 1000000}
   Heights = {0, 100, 800000}
-INVARIANTS TypeOK DecisionAgrees F5Free F5bFree AcceptOnlyIf NoLoss FeeOperatorsExact
+INVARIANTS TypeOK DecisionAgrees F5Free F5bFree AcceptOnlyIf NoLoss FeeOperatorsExact BoolFormIsSetForm
 CHECK_DEADLOCK FALSE
